@@ -118,8 +118,19 @@ func (r *Report) fn(names ...string) {
 	}
 }
 
-// finish adds the instance-count obligations.
+// finish adds the instance-count obligations and puts the list in a fixed order.
 func (r *Report) finish() {
+	idx := map[string]int{}
+	for i, n := range r.order {
+		idx[n] = i
+	}
+	sort.SliceStable(r.Obs, func(i, j int) bool {
+		a, b := r.Obs[i], r.Obs[j]
+		if idx[a.Rule] != idx[b.Rule] {
+			return idx[a.Rule] < idx[b.Rule]
+		}
+		return a.Construct < b.Construct
+	})
 	count := map[string]int{}
 	for _, o := range r.Obs {
 		count[o.Rule]++
